@@ -296,6 +296,9 @@ def expr_features(e, out: set, ctx="value"):
                     out.add("hybrid_in_ternary_arm")
             elif _has_hybrid(x) and x[0] != "stmtexpr":
                 out.add("hybrid_in_ternary_arm")
+                if x[0] == "tern" and any(y[0] in ("stmtexpr", "seqexpr") for y in (x[2], x[3])):
+                    # a statement-expression arm of an INNER ?: is guarded by the inner condition only
+                    out.add("stmtexpr_in_nested_ternary_arm")
             if x[0] == "stmtexpr" and _has_hybrid(x[4]):
                 out.add("hybrid_in_ternary_arm")
         ta, tb = ctype(a), ctype(b)
